@@ -106,6 +106,19 @@ class Ctx:
         return rc
 
 
+CURRENT = None
+
+
+def vacuity(msg):
+    """A guard against an empty check: some class of inputs/results was never exercised.  Which
+    classes show up may depend on what the code under test does; when the code already disagrees
+    with the specification, the disagreement is the verdict and the guard becomes a note."""
+    if CURRENT is not None and CURRENT.violations:
+        CURRENT.notes.append("(not exercised on this tree: %s)" % msg)
+        return
+    raise Machinery("vacuity: " + msg)
+
+
 def main_wrapper(fn, prop, argv=None):
     """fn(ctx) does the work; translate outcomes into the exit protocol."""
     import argparse
@@ -115,6 +128,8 @@ def main_wrapper(fn, prop, argv=None):
     ap.add_argument("--replay")
     a = ap.parse_args(argv)
     ctx = Ctx(prop, a.tier, a.seed)
+    global CURRENT
+    CURRENT = ctx
     ctx.replay_file = a.replay
     if a.replay:
         # re-run one recorded case: exit 1 if the disagreement is still there
